@@ -28,6 +28,7 @@ pub fn run(cases_fn: impl Fn(&Cfg) -> Vec<Case>) {
         from: 0,
         trace: false,
         list: false,
+        rep: 0,
     };
     let mut reps: u64 = 1;
     let mut i = 2;
@@ -95,6 +96,7 @@ pub fn run(cases_fn: impl Fn(&Cfg) -> Vec<Case>) {
         let mut c2 = cfg.clone();
         let mut x = cfg.seed ^ r.wrapping_mul(0xA076_1D64_78BD_642F);
         c2.seed = crate::prng::splitmix(&mut x);
+        c2.rep = r;
         cases.extend(cases_fn(&c2));
     }
     let assign = shard_of(&cases, cfg.nshards.max(1));
